@@ -86,6 +86,21 @@ CHECKS = {
             None,
             "Trusted: Lean kernel; standard axioms; the end-to-end 1e-6 optimality bound and the success flag are NOT proved (convergence with rounding): search only; PARTIAL.",
             "6/C05"),
+    "C06": ("Lean 4 theorems about the mechanisms (absolute box frame of the sub-problem projector for any rounding; argument pass-through call model) + bit-exact projector correspondence + end-to-end search against proximal-gradient oracles",
+            "PARTIAL. Proved: the box projector handed to the regularised sub-problem maps every absolute point into [xbase+sl, xbase+su] (pinned formula refuted), every h/prox call carries the user's argument tuples in the call model. "
+            "NOT proved: convergence to F* within 1e-3(1+F*) and the success flag - decided by the end-to-end search (L1 and L2-norm regularisers, bounded/unbounded, lambda over 3 decades, argsh/argsprox).",
+            "Trusted: Lean kernel; standard axioms; oracles (FISTA with exact prox for L1+box, L-BFGS-B on a smoothed L2 norm); scaling+regulariser excluded (limitation named in the property).",
+            "6/C06"),
+    "C07": ("Lean 4 theorems about a model of solve's input validation and ParameterList + tables REGENERATED from /repo's AST on every run (params table, exit codes, OptimResults attributes, user-guide constants) + differential correspondence",
+            "Proof: validation returns the input-error result iff one of the 18 documented conditions holds (first failing check wins), never raises on typed arguments, unknown key => ValueError, every default passes its own check for all n, npt, maxfun, "
+            "every exit constant named in the user guide is exposed, every OptimResults(...) call has the right arity; generated tables = committed reference (decide). Real solve compared with the model on ~1350 argument tuples.",
+            "Trusted: Lean kernel; standard axioms; AST translator harness/gen.py; 'flag documented / prints' for exits other than input error is searched, not proved; accepted boundary values that crash are recorded findings.",
+            "6/C07"),
+    "C19": ("Lean 4 theorem about the RNG-site model (draws only at sites enabled by the configuration) + recorded draw sites of real runs + repeated solves under different global RNG states with read-only caller data",
+            "PARTIAL. Proved: a configuration without an option documented as random makes no draw that can reach an evaluation point (model). Real runs: every np.random draw is recorded with its dfols call site and must be accepted; "
+            "each of 8 deterministic configuration families is solved twice under different RNG states and must give bit-identical evaluation sequences and results; x0/bounds/user_params are passed read-only and compared. NOT proved: no-mutation (Python aliasing).",
+            "Trusted: Lean kernel; standard axioms; determinism of CPython/NumPy/LAPACK within one process; call-site identification from the Python stack.",
+            "6/C19"),
 }
 
 PENDING_REASON = "check not built yet in this round (planned: see DESIGN.md section 6); not claimed until its theorem, correspondence and search exist"
